@@ -732,3 +732,110 @@ func VerifC04Chain3() {
 		vassert(e3 == nil && o3 == o, "Collect of three input chunks equals Invoke of their concatenation")
 	}
 }
+
+// A producer that writes its chunks through a pipe from its own goroutine, followed by a multi-choice branch that
+// selects one or two transform-native successors, joined by key: the four paradigms agree (each selected successor
+// sees every chunk).
+func VerifC04MultiChoiceStream() {
+	ctx := context.Background()
+	vcfg("fifo", 1)
+	vcfg("selectfirst", 1)
+	f0 := c04Fn{name: "f0"}
+	pick := vchoose("pick", 3) // 0: b, 1: c, 2: both
+	g := NewGraph[string, string]()
+	_ = g.AddLambdaNode("src", StreamableLambda(func(ctx context.Context, in string) (*schema.StreamReader[string], error) {
+		sr, sw := schema.Pipe[string](1)
+		go func() {
+			defer sw.Close()
+			if sw.Send(f0.p(in), nil) {
+				return
+			}
+			sw.Send(f0.q(in), nil)
+		}()
+		return sr, nil
+	}))
+	fwd := func(tag string) *Lambda {
+		return TransformableLambda(func(ctx context.Context, in *schema.StreamReader[string]) (*schema.StreamReader[string], error) {
+			// chunk-wise and homomorphic over concatenation, so that the chunking does not show in the result
+			return schema.StreamReaderWithConvert(in, func(s string) (string, error) { return s, nil }), nil
+		})
+	}
+	_ = g.AddLambdaNode("b", fwd("b"), WithOutputKey("kb"))
+	_ = g.AddLambdaNode("c", fwd("c"), WithOutputKey("kc"))
+	_ = g.AddLambdaNode("j", InvokableLambda(func(ctx context.Context, m map[string]any) (string, error) {
+		sb, _ := m["kb"].(string)
+		sc, _ := m["kc"].(string)
+		return "b=" + sb + ";c=" + sc, nil
+	}))
+	_ = g.AddEdge(START, "src")
+	_ = g.AddBranch("src", NewStreamGraphMultiBranch(func(ctx context.Context, in *schema.StreamReader[string]) (map[string]bool, error) {
+		in.Close()
+		switch pick {
+		case 0:
+			return map[string]bool{"b": true}, nil
+		case 1:
+			return map[string]bool{"c": true}, nil
+		}
+		return map[string]bool{"b": true, "c": true}, nil
+	}, map[string]bool{"b": true, "c": true}))
+	_ = g.AddEdge("b", "j")
+	_ = g.AddEdge("c", "j")
+	_ = g.AddEdge("j", END)
+	r, err := g.Compile(ctx, WithNodeTriggerMode(AllPredecessor))
+	vassert(err == nil, "graph compiles")
+	a, b := vsymStr("a"), vsymStr("b")
+	outs, errs := c04Four(r, a, b)
+	tb := f0.p(a+b) + f0.q(a+b)
+	tc := tb
+	want := ""
+	switch pick {
+	case 0:
+		want = "b=" + tb + ";c="
+	case 1:
+		want = "b=;c=" + tc
+	default:
+		want = "b=" + tb + ";c=" + tc
+	}
+	for k := 0; k < 4; k++ {
+		if errs[k] != nil {
+			vlog("err " + c04ParNames[k] + ": " + errs[k].Error())
+		}
+		vassert(errs[k] == nil, "multi-choice branch behind a piped producer: "+c04ParNames[k]+" succeeds")
+		vassert(outs[k] == want, "multi-choice branch behind a piped producer: in "+c04ParNames[k]+" every selected successor sees every chunk of the producer")
+	}
+	vquiesce()
+}
+
+// Two run-time-checked field mappings (values of a map[string]any into string fields) with the input split over
+// chunks by key: the four paradigms agree
+func VerifC04FieldMapChunks() {
+	ctx := context.Background()
+	vcfg("fifo", 1)
+	vcfg("selectfirst", 1)
+	wf := NewWorkflow[map[string]any, string]()
+	wf.AddLambdaNode("join", InvokableLambda(func(ctx context.Context, in map[string]string) (string, error) {
+		return in["A"] + "|" + in["B"], nil
+	})).AddInput(START, MapFields("a", "A"), MapFields("b", "B"))
+	wf.End().AddInput("join")
+	r, err := wf.Compile(ctx)
+	vassert(err == nil, "workflow compiles")
+	x, y := vsymStr("x"), vsymStr("y")
+	want := x + "|" + y
+	whole := map[string]any{"a": x, "b": y}
+	split := []map[string]any{{"a": x}, {"b": y}}
+	if vchoose("order", 2) == 1 {
+		split = []map[string]any{{"b": y}, {"a": x}}
+	}
+	o1, e1 := r.Invoke(ctx, whole)
+	vassert(e1 == nil && o1 == want, "Invoke maps both values")
+	sr, e2 := r.Stream(ctx, whole)
+	vassert(e2 == nil, "Stream starts")
+	o2, e2 := c04Drain(sr)
+	vassert(e2 == nil && o2 == want, "Stream agrees with Invoke")
+	o3, e3 := r.Collect(ctx, schema.StreamReaderFromArray(split))
+	vassert(e3 == nil && o3 == want, "Collect of the input split by key agrees with Invoke of the whole input")
+	sr4, e4 := r.Transform(ctx, schema.StreamReaderFromArray(split))
+	vassert(e4 == nil, "Transform starts")
+	o4, e4 := c04Drain(sr4)
+	vassert(e4 == nil && o4 == want, "Transform of the input split by key agrees with Invoke of the whole input")
+}
